@@ -53,3 +53,29 @@ Proof. exact saturation_examples. Qed.
 (* without saturation the product of a valid wire value wraps to a negative duration *)
 Theorem C09_unsaturated_refuted : wrap64 (2562048 * 3600000000000) < 0.
 Proof. exact wrap_witness. Qed.
+
+(* attempts: a header computed anew for the attempt that reaches the server keeps the bracket with THAT
+   attempt's transit; the same header re-sent later only bounds the excess by the time since it was computed,
+   and a concrete 3 s call (first attempt lost after 400 ms) exceeds the property's bound by 400 ms *)
+Theorem C09_recomputed_header_bracket : forall r d computed sent2 arrival,
+  let r2 := r - (sent2 - computed) in
+  1000000 <= r2 -> r < 2 ^ 63 -> computed <= sent2 <= arrival ->
+  decode_timeout (encode_timeout r2) = Deadline d ->
+  let caller := computed + r in let handler := arrival + d in
+  caller - 1000000 < handler /\ handler <= caller + (arrival - sent2).
+Proof. exact recomputed_header_bracket. Qed.
+Print Assumptions C09_recomputed_header_bracket.
+
+Theorem C09_resent_header_bound : forall r d computed sent2 arrival,
+  1000000 <= r < 2 ^ 63 -> computed <= sent2 <= arrival ->
+  decode_timeout (encode_timeout r) = Deadline d ->
+  arrival + d <= (computed + r) + (arrival - computed).
+Proof. exact resent_header_bound. Qed.
+
+Theorem C09_resent_header_refuted :
+  exists r d computed sent2 arrival,
+    1000000 <= r < 2 ^ 63 /\ computed <= sent2 <= arrival /\
+    decode_timeout (encode_timeout r) = Deadline d /\
+    (computed + r) + (arrival - sent2) + 1000000 < arrival + d.
+Proof. exact resent_header_refuted. Qed.
+Print Assumptions C09_resent_header_refuted.
